@@ -223,3 +223,11 @@ func init() {
 		}
 	})
 }
+
+func init() {
+	register("DBGN", "debug: nil-arg sites", func(c *Ctx, r *Report) {
+		for _, s := range c.W.nilArgSites() {
+			fmt.Println("NILARG", c.W.pos(s.Pos), s.Key)
+		}
+	})
+}
